@@ -347,6 +347,9 @@ func (repo *BlockRepository) Revert(ctx context.Context, height int) error {
 	if height > repo.height {
 		return errors.New(fmt.Sprintf("Revert height %d above current height %d", height, repo.height))
 	}
+	if height < 0 {
+		return errors.New(fmt.Sprintf("Revert height %d below zero", height))
+	}
 
 	// Make sure the latest file in storage matches the cached headers so that it can be removed or
 	// truncated below.
